@@ -152,14 +152,14 @@ def run_isolated(H, sub, gocases):
     try:
         return vlib.run_harness(H, sub, gocases)
     except RuntimeError:
+        import json, subprocess
         out = []
         for c in gocases:
-            try:
-                out.append(vlib.run_harness(H, sub, [c], timeout=120)[0])
-            except Exception as e:
-                msg = str(e)
-                kind = "stack overflow" if "stack overflow" in msg or "stack exceeds" in msg else "out of memory" if "out of memory" in msg else "fatal"
-                out.append(dict(c="fatal", e="Go fatal error (%s): %s" % (kind, msg[-600:])))
+            p = subprocess.run([H, sub], input=json.dumps(c) + "\n", capture_output=True, text=True, timeout=300)
+            if p.returncode == 0 and p.stdout.strip():
+                out.append(json.loads(p.stdout.splitlines()[0]))
+            else:
+                out.append(dict(c="fatal", e="Go fatal error, exit %d: %s" % (p.returncode, " | ".join(p.stderr.splitlines()[:3])[:400])))
         return out
 
 
